@@ -17,15 +17,15 @@ import (
 
 func c05Drivers() []concParams {
 	return []concParams{
-		{Name: "program-order", Cfg: "roomy/bytewise", Clients: [][]string{{"put:a", "put:b"}, {"get:b", "get:a"}}, QB: 3, TB: 4},
-		{Name: "batch-atomic", Cfg: "roomy/bytewise", Pre: []string{"put:a", "put:b"}, Clients: [][]string{{"w:+a,+b"}, {"snapget:a,b"}, {"iterscan"}}, QB: 3, TB: 4},
-		{Name: "flush-vs-readers", Cfg: "flushy/bytewise", Clients: [][]string{{"put:a", "put:a"}, {"get:a"}, {"snapget:a"}}},
+		{Name: "program-order", Cfg: "roomy/bytewise", Clients: [][]string{{"put:a", "put:b"}, {"get:b", "get:a"}}, QB: 3, TB: 4, SQ: 2, ST: 2},
+		{Name: "batch-atomic", Cfg: "roomy/bytewise", Pre: []string{"put:a", "put:b"}, Clients: [][]string{{"w:+a,+b"}, {"snapget:a,b"}, {"iterscan"}}, QB: 3, TB: 4, SQ: 1, ST: 2},
+		{Name: "flush-vs-readers", Cfg: "flushy/bytewise", Clients: [][]string{{"put:a", "put:a"}, {"get:a"}, {"snapget:a"}}, SQ: 1, ST: 1},
 		{Name: "flush-vs-iter", Cfg: "flushy/bytewise", Pre: []string{"put:b"}, Clients: [][]string{{"put:a", "put:a"}, {"iterscan"}}},
-		{Name: "two-writers-merge", Cfg: "roomy/bytewise", Clients: [][]string{{"put:a", "put:b"}, {"put:b", "put:a"}, {"get:a", "get:b"}}, QB: 2, TB: 4},
+		{Name: "two-writers-merge", Cfg: "roomy/bytewise", Clients: [][]string{{"put:a", "put:b"}, {"put:b", "put:a"}, {"get:a", "get:b"}}, QB: 2, TB: 4, SQ: 1, ST: 2},
 		{Name: "transaction-vs-reader", Cfg: "bigbatch/bytewise", Pre: []string{"put:a"}, Clients: [][]string{{"tr:+a,+b"}, {"get:a", "get:b"}}},
 		// a snapshot taken while a transaction commit is in flight is one cut: reading the same key
 		// again after the commit finished gives the same answer
-		{Name: "transaction-vs-snapshot", Cfg: "bigbatch/bytewise", Pre: []string{"put:a", "put:b"}, Clients: [][]string{{"tr:+a,+b"}, {"snapget:a,b,a"}}, QB: 2, TB: 3},
+		{Name: "transaction-vs-snapshot", Cfg: "bigbatch/bytewise", Pre: []string{"put:a", "put:b"}, Clients: [][]string{{"tr:+a,+b"}, {"snapget:a,b,a"}}, QB: 2, TB: 3, SQ: 1, ST: 1},
 		{Name: "transaction-vs-iter", Cfg: "bigbatch/bytewise", Pre: []string{"put:a"}, Clients: [][]string{{"tr:+a,+b"}, {"iterscan"}, {"get:b", "get:a"}}, QB: 1, TB: 3},
 		{Name: "compact-vs-rw", Cfg: "flushy/bytewise", Pre: []string{"put:a", "put:b", "q"}, Clients: [][]string{{"put:a"}, {"cr"}, {"get:a", "get:b"}}, QB: 2, TB: 3},
 		// Has shares Get's lookup path but not its code: a delete and a re-insert racing a flush
@@ -66,10 +66,31 @@ func runConcChecks(c *explore.Ctx, id string, drivers []concParams, bound int, p
 		d.QB, d.TB = max(1, d.QB-1), max(1, d.TB-1)
 		drivers = append(drivers, d)
 	}
+	// statement granularity inside package leveldb: a third variant of the drivers that ask for
+	// it (unsynchronised accesses - a read after an unlock, a scratch buffer shared by two callers -
+	// are invisible to scheduling at synchronisation operations)
+	for i := 0; i < n; i++ {
+		d := drivers[i]
+		sb := d.SQ
+		if c.Tier == "thorough" {
+			sb = d.ST
+		}
+		if sb <= 0 {
+			continue
+		}
+		d.Name += "@stmt"
+		d.Stmt = true
+		d.QB, d.TB, d.WQ, d.WT = sb, sb, 0, 0
+		drivers = append(drivers, d)
+	}
+	hbWanted := explore.UseHB
 	for _, d := range drivers {
 		if !cfgSelected(d.Name) {
 			continue
 		}
+		// at statement granularity every point is a potential access to anything: the
+		// happens-before fingerprints cannot order them, the plain search is used
+		explore.UseHB = hbWanted && !d.Stmt
 		var completed = -1
 		var last *explore.DFSStats
 		bound := bound
@@ -192,7 +213,7 @@ func runConcChecks(c *explore.Ctx, id string, drivers []concParams, bound int, p
 	c.SetExhaustive(exh)
 	c.Coverage["bound"] = bound
 	c.Coverage["worker_crashes"] = pool.Crashes
-	c.Coverage["hb_state_caching"] = explore.UseHB
+	c.Coverage["hb_state_caching"] = hbWanted
 	if p := wherePools[id]; p != nil {
 		p.Close()
 		delete(wherePools, id)
